@@ -118,7 +118,7 @@ Theorem C07_received_bytes_origin : forall BUF w e w' ys c,
   handle_event BUF w e = inl (w', ys) ->
   exists d, k_rx (client_of w' c) = k_rx (client_of w c) ++ d /\
     (d = [] \/
-     (exists fd x rest, e = EvOut fd /\ alookup fd (w_conns w) = Some x /\ sc_client x = c /\ unsent (sc_conn x) = d ++ rest) \/
+     (exists fd kk x rest, e = EvOut fd kk /\ alookup fd (w_conns w) = Some x /\ sc_client x = c /\ unsent (sc_conn x) = d ++ rest) \/
      (exists nf rest, e = EvListener nf /\ w_backlog w = c :: rest /\ d = SERVER_FULL_ERROR_MESSAGE)).
 Proof. exact event_delivery. Qed.
 Theorem C07_sweep_delivers_nothing : forall w c, k_rx (client_of (sweep w) c) = k_rx (client_of w c).
